@@ -3,7 +3,7 @@ import sys
 
 from . import lib
 
-DRIVERS = [("vdrive", "plain")]
+DRIVERS = [("vdrive", "plain"), ("vdrive", "asan")]
 
 
 def main():
